@@ -39,7 +39,9 @@ enum { S_NONE, S_XDATA, S_XFUNC, S_IMPORT, S_FWDDEF };
 static const int h_shape[3][2] = {H_SHAPES};
 
 /* ---------------- static state ---------------- */
-#define H_ARR 65 /* > 64 elements: CBMC 6.11 union pitfall (see HARNESS-GUIDE / C14) */
+#ifndef H_ARR
+#define H_ARR 65
+#endif /* > 64 elements: CBMC 6.11 union pitfall (see HARNESS-GUIDE / C14) */
 static struct MIR_item h_items0[H_ARR], h_items1[H_ARR], h_items2[H_ARR];
 static struct MIR_item *const h_items[3] = {h_items0, h_items1, h_items2};
 static struct MIR_module h_mod[3];
@@ -47,7 +49,8 @@ static struct MIR_data h_data[3][2];
 static struct MIR_func h_func[3][2];
 static const char *h_nm[2];                       /* the interned (unique) strings "x", "y" */
 static const char h_lit[2][2] = {"x", "y"};       /* what a client passes to MIR_load_external: any C string */
-static char h_ext_obj[2][8], h_res_obj[8];        /* external addresses A, B and the address the resolver returns for "y" */
+static char h_ext_obj[H_NSTEPS + 1][8], h_res_obj[8]; /* external addresses (every registration uses a fresh one) and the address the resolver returns for "y" */
+static int h_ext_n;
 static MIR_context_t h_ctx;
 
 #if H_CBMC
@@ -186,11 +189,12 @@ static void h_step_load (int k) {
   h_inq[k] = 1;
 }
 
-static void h_step_ext (int n, int a) {
+static void h_step_ext (int n) {
+  void *a = h_ext_obj[h_ext_n++];
   h_err_expected = 0; h_err_code_expected = -1;
-  MIR_load_external (h_ctx, h_lit[n], h_ext_obj[a]);
+  MIR_load_external (h_ctx, h_lit[n], a);
   H_EXPECT_NO_ERROR_HERE ();
-  h_map[n].kind = D_EXT; h_map[n].addr = h_ext_obj[a]; h_map[n].def = NULL; h_map[n].func_p = 0; h_map[n].gen++;
+  h_map[n].kind = D_EXT; h_map[n].addr = a; h_map[n].def = NULL; h_map[n].func_p = 0; h_map[n].gen++;
 }
 
 static void h_check_env_entry (MIR_item_t e, int n) {
@@ -243,21 +247,22 @@ void harness (void) {
   for (int k = 0; k < 3; k++) h_build_module (k);
   h_perm = nd_bool ();
   MIR_set_func_redef_permission (h_ctx, h_perm);
-  unsigned nsteps = (unsigned) nd_below (H_NSTEPS + 1);
+  /* every check is made when a step completes, so the histories of exactly H_NSTEPS steps cover all shorter ones (prefixes) */
   for (unsigned s = 0; s < H_NSTEPS; s++) {
-    if (s >= nsteps) break;
-    unsigned op = (unsigned) nd_below (9);
+    unsigned op = (unsigned) nd_below (7);
     switch (op) {
     case 0: h_step_load (0); break;
     case 1: h_step_load (1); break;
     case 2: h_step_load (2); break;
-    case 3: h_step_ext (0, 0); break;
-    case 4: h_step_ext (0, 1); break;
-    case 5: h_step_ext (1, 0); break;
-    case 6: h_step_ext (1, 1); break;
-    case 7: h_step_link (0); break;
+    case 3: h_step_ext (0); break;
+    case 4: h_step_ext (1); break;
+    case 5: h_step_link (0); break;
     default: h_step_link (1); break;
     }
+#if H_CBMC && !defined(H_REAL_HTAB)
+    H_ASSERT (h_itab.bound < H_HTAB_MODEL_CAP && h_strtab.bound < H_HTAB_MODEL_CAP, "capacity of the table model is never reached (no history is cut off)");
+#endif
+    H_ASSERT (h_thunk_n < H_NTHUNKS, "capacity of the thunk pool is never reached");
   }
 #ifdef H_WIT_EXT
   if (h_w_ext) H_WITNESS ("an import bound to an external address");
@@ -274,5 +279,7 @@ void harness (void) {
 #ifdef H_WIT_RESOLVER
   if (h_w_resolver) H_WITNESS ("an import defined by the resolver");
 #endif
+#ifdef H_WIT_END
   H_WITNESS ("end");
+#endif
 }
